@@ -83,7 +83,15 @@ pub fn lex_number(source: &[char]) -> Option<FoundToken> {
     while !s.is_empty() {
         // Overflowing literals such as `1e999` parse to infinity, which is not a number we can
         // represent (or serialize).
-        if let Some(n) = s.parse::<f64>().ok().filter(|n| n.is_finite()) {
+        // A number ends in a digit: `4.` parses as a float, but that period ends the sentence. (Whether
+        // it was swallowed used to depend on a digit appearing anywhere later in the text.)
+        let ends_in_digit = s.ends_with(|c: char| c.is_ascii_digit());
+
+        if let Some(n) = s
+            .parse::<f64>()
+            .ok()
+            .filter(|n| n.is_finite() && ends_in_digit)
+        {
             let precision = s.chars().rev().position(|c| c == '.').unwrap_or_default();
 
             return Some(FoundToken {
